@@ -147,7 +147,8 @@ func c06One(env *Env, m *wvlib.Model, c *C06Case) {
 	var herr error
 	select {
 	case herr = <-done:
-	case <-time.After(30 * time.Second):
+	case <-time.After(wvlib.Watchdog(30 * time.Second)):
+		wvlib.NoteHang()
 		env.R.Violate("heal-does-not-return", fmt.Sprintf("damage %v", c.Damage), c)
 		return
 	}
